@@ -229,6 +229,102 @@ const BAD_REQUESTS: &[(&str, Option<&str>, &str)] = &[
     ("", None, "empty-query"),
 ];
 
+/// Part C — transparency under every completion order. Documents with concurrently resolving siblings and list
+/// items; every resolver waits on a gate; for each (document, world with ≤ 2 failing resolvers) the SET of responses
+/// reachable over all gate-opening orders must be the same with 1–3 pass-through extensions as with none.
+const ORDER_DOCS: &[&str] = &["{ a n n2 }", "{ l { a n } n }", "{ ln { a } a }", "{ lnn { a } lo { a } }", "{ o { l { a } } n }", "{ lu { ... on A { a } ... on B { pb a } } n }", "{ ll li n }"];
+
+fn orders_part(cx: &Cx, refs: &Schema, sch: &Schemas) {
+    use agv_common::glue::ChooserWorld;
+    use agv_engine::sched::{self, End, Handle, Policy, RunCfg};
+    use std::collections::{BTreeSet, HashMap};
+    use std::sync::Mutex;
+    let docs: &[&str] = if cx.quick() { &ORDER_DOCS[..5] } else { ORDER_DOCS };
+    let stacks_dyn = if cx.quick() { 2 } else { 4 };
+    // (flavour, doc, world) -> stack -> set of responses
+    let seen: Mutex<HashMap<(bool, usize, String), BTreeMap<usize, BTreeSet<String>>>> = Mutex::new(HashMap::new());
+    let worlds: Mutex<HashMap<(bool, usize, String), J>> = Mutex::new(HashMap::new());
+    let schedules = AtomicU64::new(0);
+    let st = explore(
+        &ExploreCfg { bounds: [0, 2, 0, 0], ..Default::default() },
+        &|ch: &mut Chooser| {
+            let dynamic = ch.any("flavour", 2) == 1;
+            let k = ch.any("stack", if dynamic { stacks_dyn } else { 4 });
+            let di = ch.any("doc", docs.len());
+            let text = docs[di];
+            let doc = agv_refgql::parse::parse_exec(text).expect("fixed document parses");
+            let mut table: BTreeMap<String, agv_refgql::exec::Ans> = BTreeMap::new();
+            for f in ["l", "ln", "lnn", "lo", "lu", "li", "ll"] {
+                if text.contains(&format!(" {f} ")) {
+                    table.insert(f.to_string(), agv_refgql::exec::Ans::List(2));
+                }
+            }
+            let filter = |_: &[agv_refgql::exec::Seg], _: &agv_refgql::ast::Type, _: bool, a: &agv_refgql::exec::Ans| matches!(a, agv_refgql::exec::Ans::Err);
+            let mut w = ChooserWorld { s: refs, ch, cfg: MenuCfg { errors: true, non_finite: false, wrong_kind: false, rich: false }, class: Class::Dev(1), fault_class: Some(Class::Dev(1)), table, asked: 0, filter: Some(&filter) };
+            let _ = agv_refgql::exec::execute(refs, &doc, None, &Default::default(), &mut w);
+            let table = w.table;
+            HOOKS.with(|h| h.borrow_mut().clear());
+            let h = Handle::new();
+            let mut wdv = Wd::new(table.clone());
+            wdv.gates = Some(h.clone());
+            let req = Request::new(text).data(Arc::new(wdv));
+            let cfg = RunCfg { policy: Policy::Eager, gate_class: Class::Exhaustive, preempt_class: Class::Dev(3), max_steps: 5000 };
+            let r = if dynamic { sched::run(&h, ch, &cfg, sch.dynm[k].execute(req), &mut |_| {}) } else { sched::run(&h, ch, &cfg, sch.stat[k].execute(req), &mut |_| {}) };
+            HOOKS.with(|h| h.borrow_mut().clear());
+            (dynamic, k, di, table, r.end, r.schedule, r.output.as_ref().map(|o| format!("{:?}", full(o))))
+        },
+        &|_, (dynamic, k, di, table, end, schedule, out)| {
+            cx.eval();
+            schedules.fetch_add(1, Ordering::Relaxed);
+            let world = table_json(&table);
+            let case = json!({"part": "orders", "flavour": if dynamic { "dynamic" } else { "static" }, "stack": k, "query": docs[di], "world": world, "schedule": schedule});
+            let Some(out) = out.filter(|_| end == End::Done) else {
+                return cx.violation(Violation::new("no-termination", format!("execution ended {end:?} after schedule {schedule:?}"), case).key("flavour", if dynamic { "dynamic" } else { "static" }).key("kind", "orders"));
+            };
+            if schedule.len() >= 2 {
+                cx.nontrivial(agv_engine::h64(&(dynamic, k, di, world.to_string(), &schedule)));
+            }
+            let key = (dynamic, di, world.to_string());
+            worlds.lock().unwrap().entry(key.clone()).or_insert(world);
+            seen.lock().unwrap().entry(key).or_default().entry(k).or_default().insert(out);
+        },
+    );
+    if let Some(d) = st.diverged {
+        cx.machinery_error(d);
+    }
+    let seen = seen.into_inner().unwrap();
+    let worlds = worlds.into_inner().unwrap();
+    let mut multi = 0u64;
+    for ((dynamic, di, wkey), per_stack) in &seen {
+        let Some(base) = per_stack.get(&0) else { continue };
+        if base.len() > 1 {
+            multi += 1; // order dependence without extensions is C05's subject, not judged here
+        }
+        for (k, set) in per_stack.iter().filter(|(k, _)| **k > 0) {
+            if set != base {
+                let flavour = if *dynamic { "dynamic" } else { "static" };
+                let only_ext: Vec<&String> = set.difference(base).collect();
+                let only_base: Vec<&String> = base.difference(set).collect();
+                cx.violation(
+                    Violation::new(
+                        "not-transparent/responses-over-completion-orders",
+                        format!("over all completion orders, {k} pass-through extension(s) give {} distinct response(s), none gives {}\n only with extensions: {only_ext:?}\n only without: {only_base:?}", set.len(), base.len()),
+                        json!({"part": "orders", "flavour": flavour, "stack": k, "query": docs[*di], "world": worlds[&(*dynamic, *di, wkey.clone())]}),
+                    )
+                    .key("flavour", flavour)
+                    .key("kind", "orders"),
+                );
+            }
+        }
+    }
+    cx.extra("orders_part_groups", json!(seen.len()));
+    cx.extra("orders_part_schedules", json!(schedules.load(Ordering::Relaxed)));
+    cx.extra("orders_part_groups_order_dependent_without_extensions", json!(multi));
+    if st.capped {
+        cx.exhaustive(false);
+    }
+}
+
 fn run(cx: &Cx) {
     run_inner(cx, None)
 }
@@ -253,6 +349,7 @@ fn run_inner(cx: &Cx, only: Option<&J>) {
             Err(e) => return cx.machinery_error(format!("dynamic twin of S1 does not build: {e}")),
         }
     }
+    cx.exhaustive(true);
     let agree = AtomicU64::new(0);
     let judged_resolve = AtomicU64::new(0);
     let nodes = if cx.quick() { 3 } else { 4 };
@@ -324,6 +421,11 @@ fn run_inner(cx: &Cx, only: Option<&J>) {
         }
     };
     if let Some(case) = only {
+        if case["part"] == "orders" {
+            println!(" part C case: re-running the completion-order part (all orders of all its documents)");
+            orders_part(cx, &refs, &sch);
+            return;
+        }
         let dynamic = case["flavour"] == "dynamic";
         let text = case["query"].as_str().unwrap_or("");
         let vars = case["variables"].as_object().cloned().unwrap_or_default();
@@ -364,11 +466,11 @@ fn run_inner(cx: &Cx, only: Option<&J>) {
             compare(flavour, dynamic, text, *op, &Default::default(), &Default::default(), None, None, tag);
         }
     }
+    orders_part(cx, &refs, &sch);
     if agree.load(Ordering::Relaxed) == 0 {
         cx.machinery_error("no case in which the extension stack was transparent and ordered");
     }
-    cx.rule(&format!("case = (flavour, request, world); each run with stacks of 1, 2 and 3 recording pass-through extensions and compared with the stack-0 run. Requests: every valid query and mutation document ≤ {nodes} nodes over a subset of S1 (≤ 1 decoration) × ≤ 1 value deviation × ≤ 1 failing resolver, plus {} requests failing at parse / validation / operation selection. Non-trivial = distinct (flavour, request, world).", BAD_REQUESTS.len()));
-    cx.exhaustive(true);
+    cx.rule(&format!("case = (flavour, request, world); each run with stacks of 1, 2 and 3 recording pass-through extensions and compared with the stack-0 run. Requests: every valid query and mutation document ≤ {nodes} nodes over a subset of S1 (≤ 1 decoration) × ≤ 1 value deviation × ≤ 1 failing resolver, plus {} requests failing at parse / validation / operation selection. Part C (completion orders): fixed documents with concurrent siblings and 2-item lists × every world with ≤ 2 failing resolvers × EVERY order of opening the resolver gates, for stacks 0–3: the set of responses over all orders with a stack of 1–3 must equal the set with none. Non-trivial = distinct (flavour, request, world) resp. (flavour, stack, document, world, schedule).", BAD_REQUESTS.len()));
     cx.extra("runs_transparent_and_ordered", json!(agree.load(Ordering::Relaxed)));
     cx.extra("runs_with_resolve_positions_judged", json!(judged_resolve.load(Ordering::Relaxed)));
     cx.assume("'each run exactly once' is read as: at most once, in order, and exactly once for every stage the request reaches (a failing stage ends the sequence)");
